@@ -23,6 +23,16 @@ theorem CValid.of_valid {c : Cfg} (h : c.Valid) : CValid c := by
 
 instance (c : Cfg) : Decidable (CValid c) := by unfold CValid; exact inferInstance
 
+/-- the static assertions on the coder's own parameters (no entropy model involved):
+    what `from_binary`, `change_precision::<q>`, … require of a precision `q` -/
+def PrecOk (W S q : Nat) : Prop := 1 ≤ q ∧ q ≤ W ∧ W + q ≤ S
+
+instance (W S q : Nat) : Decidable (PrecOk W S q) := by unfold PrecOk; exact inferInstance
+
+theorem CValid.precOk {c : Cfg} (h : CValid c) : PrecOk c.W c.S c.P := by
+  obtain ⟨h1, h2, h3, h4⟩ := h
+  exact ⟨h1, by omega, h4⟩
+
 theorem Words.tail {W : Nat} {w : Nat} {l : List Nat} (h : Words W (w :: l)) : Words W l :=
   fun x hx => h x (List.mem_cons_of_mem _ hx)
 
@@ -258,7 +268,8 @@ theorem absorb_ok {c : Cfg} (hv : CValid c) {hr p r : Nat} {rems : List Nat}
 theorem decode_spec {Sym : Type} {c : Cfg} (hv : CValid c) {m : Model Sym}
     (hm : m.WellFormed c.P) {x : Coder} (hx : Inv c x) :
     (decode c m x = .error .outOfData ∧ x.compressed = [] ∧
-        (c.P = c.W ∨ x.heads.compressed < 2^c.P)) ∨
+        (c.P = c.W ∨ x.heads.compressed < 2^c.P) ∧
+        takeChunk c x.heads.compressed x.compressed = .error .outOfData) ∨
     ∃ s y word, decode c m x = .ok (s, y) ∧ Inv c y ∧
       takeChunk c x.heads.compressed x.compressed = .ok (word, y.heads.compressed, y.compressed) ∧
       s = (m.dec (quantileOf c word)).1 ∧ (∃ cp, m.enc s = some cp) ∧
@@ -268,7 +279,7 @@ theorem decode_spec {Sym : Type} {c : Cfg} (hv : CValid c) {m : Model Sym}
   obtain ⟨⟨hc1, hc2, hr1, hr2⟩, hwc, hwr⟩ := hx
   rcases takeChunk_ok hv hc1 hc2 hwc with ⟨herr, hnil, hcond⟩ | ⟨word, hc', comp', htk, h1', h2', hword, hwc', D, hD, hput⟩
   · left
-    refine ⟨?_, hnil, hcond⟩
+    refine ⟨?_, hnil, hcond, herr⟩
     simp [decode, herr]
   · right
     have hq := (quantileOf_lt hv hword).1
